@@ -124,13 +124,17 @@ class Case:
                     self.mod.start_machine(getattr(self.mod, 'st_%d' % s),
                                            cleanup=None if cl is None else getattr(self.mod, 'cl_%d' % cl),
                                            status=None if ovr is None else (ovr[0], ovr[1]), **kwds)
+                    self.events.append(['reqdone', True])
                 else:
                     if cl is not None:          # no cleanup: rely on start()'s own default
                         kwds['cleanup'] = RAW_CLEAN[cl]
                     self.sm.start(RAW_STATES[s], **kwds)
             else:
                 if self.hs:
+                    # the request as the client issued it (whether it reaches the machine is for the monitor to judge)
+                    self.events.append(['reqstop'])
                     self.mod.stop_machine((r[1][0], r[1][1]))
+                    self.events.append(['reqdone', False])
                 else:
                     self.sm.stop()
         finally:
